@@ -133,3 +133,52 @@ Definition honest_filtersb (env : denv) (tr : dtruth) (startH : Z) (p : Z) : boo
     let t := u32 (startH + Z.of_nat i) in
     match lookup p (e_filters env t) with Some g => g =? t_filter tr t | None => false end)
     (seq 0 (length (m_hashes (t_msg tr)))).
+
+(* ================= what BIP-158 says about a filter and a block ================= *)
+(* A basic filter must contain the script of every output of the block
+   (coinbase included) that is non-empty and does not START with OP_RETURN -
+   whether or not the script parses, whatever its size - and the scripts of
+   the outputs spent.  The spent scripts are not in the block, so a light
+   client can refute a filter from the block alone exactly when it omits an
+   indexed OUTPUT script. *)
+Definition bip158_indexed (s : ascript) : bool :=
+  negb (sc_len s =? 0) && negb (sc_first s =? OP_RETURN).
+
+Definition is_opret (s : ascript) : bool :=
+  negb (sc_len s =? 0) && (sc_first s =? OP_RETURN).
+
+Definition block_outs (b : ablock) : list ascript := flat_map tx_outs b.
+
+(* the filter is refutable from the block *)
+Definition omits_required (b : ablock) (f : Z -> bool) : Prop :=
+  exists s, In s (block_outs b) /\ bip158_indexed s = true /\ f (sc_tok s) = false.
+
+(* OP_RETURN outputs of the block the filter matches (BIP-158 filters index
+   none; a match is a false positive or an old-style filter) *)
+Definition opret_matches (b : ablock) (f : Z -> bool) : Z :=
+  zlen (List.filter (fun s => is_opret s && f (sc_tok s)) (block_outs b)).
+
+(* decidable version for the monitor *)
+Definition omits_requiredb (b : ablock) (f : Z -> bool) : bool :=
+  List.existsb (fun s => bip158_indexed s && negb (f (sc_tok s))) (block_outs b).
+
+(* the [fo_verify] oracle of a height is VerifyBasicBlockFilter on the block
+   of that height; [mt g] is the Match predicate of the filter with token g *)
+Definition verify_is (fo : foracle) (blk : ablock) (mt : Z -> Z -> bool) : Prop :=
+  forall g, fo_verify fo g = verify_filter blk (mt g).
+
+(* index i of a getcfheaders answer is in the class of the property, in the
+   vocabulary of BIP-158: the true filter omits nothing and matches no
+   OP_RETURN output; the true answer carries its hash; every filter served at
+   that height is the true one or is refutable from the block; the honest
+   peer p serves the true one *)
+Definition good_idx_bip158 (env : denv) (blk : Z -> ablock) (mt : Z -> Z -> Z -> bool)
+           (tfilt : Z -> Z) (tm : cfmsg) (startH p i : Z) : Prop :=
+  let t := u32 (startH + i) in
+  verify_is (e_fo env t) (blk t) (mt t) /\
+  ~ omits_required (blk t) (mt t (tfilt t)) /\
+  opret_matches (blk t) (mt t (tfilt t)) = 0 /\
+  zget (m_hashes tm) i = Some (fo_hash (e_fo env t) (tfilt t)) /\
+  (forall q g, In (q, g) (e_filters env t) -> g = tfilt t \/ omits_required (blk t) (mt t g)) /\
+  NoDup (List.map fst (e_filters env t)) /\
+  lookup p (e_filters env t) = Some (tfilt t).
